@@ -147,4 +147,30 @@ def swapPairs {α : Type} : List α → List α
   | a :: b :: rest => b :: a :: swapPairs rest
   | l => l
 
+/-- a `Result` next to the current value of the `&mut` state -/
+def withState {ε α σ : Type} (r : Except ε α) (s : σ) : Except ε (α × σ) :=
+  match r with
+  | .ok a => .ok (a, s)
+  | .error e => .error e
+
+/-- `slice.split_at_checked(n)` -/
+def split_at_checked {α : Type} (l : List α) (n : Int) : Option (List α × List α) :=
+  if n.toNat ≤ l.length then some (l.take n.toNat, l.drop n.toNat) else none
+
+def u8_is_ascii_digit (b : Nat) : Bool := 48 ≤ b && b ≤ 57
+def u8_is_ascii_alphabetic (b : Nat) : Bool := (65 ≤ b && b ≤ 90) || (97 ≤ b && b ≤ 122)
+
+/-- `str::from_utf8(bytes)?.parse::<T>()?` for an unsigned / non-negative target with maximum `max`, on the byte
+    strings the TZ-string parser hands over (all ASCII digits, by `read_while(is_ascii_digit)`): empty → error,
+    overflow → error. MODELLED (the same convention as the model's `parseInt`; DESIGN trusted base). -/
+def parse_int (max : Nat) (ds : List Nat) : Except TzVerif.Model.TzStringError Int :=
+  if ds.isEmpty then .error .parseInt
+  else
+    let v := ds.foldl (fun acc d => acc * 10 + (d - 48)) 0
+    if v > max then .error .parseInt else .ok v
+
+def parse_int_i32 := parse_int 2147483647
+def parse_int_u16 := parse_int 65535
+def parse_int_u8 := parse_int 255
+
 end TzVerif.Src
